@@ -3,6 +3,7 @@ package props
 import (
 	"encoding/json"
 	"fmt"
+	"os"
 	"testing"
 
 	"pgregory.net/rapid"
@@ -140,6 +141,9 @@ func runHistory(rep Rep, w World, mon func(v *View, op *Op, s *Sys)) *Sys {
 	}
 	for i := range w.Ops {
 		s.Run(&w.Ops[i])
+	}
+	if os.Getenv("VERIF_TRACE") != "" {
+		fmt.Println(s.Transcript())
 	}
 	return s
 }
@@ -368,7 +372,11 @@ var c14Opts = func() worldOpts {
 // genC14: the usual Parallel worlds, and once in a while a very large set that starts from nothing ("all k creations" has
 // no upper bound in the property; a controller that budgets its writes per pass would show only here)
 func genC14(rt *rapid.T) World {
-	if rapid.IntRange(0, 149).Draw(rt, "hugeSet") == 0 {
+	rare := 149
+	if thorough() {
+		rare = 1499 // (a huge set costs about a thousand ordinary cases)
+	}
+	if rapid.IntRange(0, rare).Draw(rt, "hugeSet") == 0 {
 		n := int32(rapid.IntRange(501, 560).Draw(rt, "hugeReplicas"))
 		return World{Spec: SpecP{Name: "web", R: n, Parallel: true, Limit: 10}, Hist: []int{0},
 			Ops: []Op{{K: OpReconcile}, {K: OpKubelet, A: 3, B: 0}, {K: OpEditReplicas, A: 0}, {K: OpReconcile}}}
